@@ -1,7 +1,12 @@
 package props
 
 import (
+	"go/ast"
+	"go/constant"
+	"go/token"
 	"go/types"
+
+	"golang.org/x/tools/go/packages"
 
 	"golang.org/x/tools/go/ssa"
 )
@@ -15,4 +20,38 @@ func arrayLenOfType(a *ssa.Alloc) int64 {
 		return arr.Len()
 	}
 	return -1
+}
+
+func globalByteArrayAST(pk *packages.Package, name string) []int64 {
+	for _, f := range pk.Syntax {
+		for _, d := range f.Decls {
+			gd, ok := d.(*ast.GenDecl)
+			if !ok || gd.Tok != token.VAR {
+				continue
+			}
+			for _, sp := range gd.Specs {
+				vs := sp.(*ast.ValueSpec)
+				for i, n := range vs.Names {
+					if n.Name != name || i >= len(vs.Values) {
+						continue
+					}
+					cl, ok := vs.Values[i].(*ast.CompositeLit)
+					if !ok {
+						return nil
+					}
+					var out []int64
+					for _, e := range cl.Elts {
+						tv := pk.TypesInfo.Types[e]
+						if tv.Value == nil {
+							return nil
+						}
+						v, _ := constant.Int64Val(constant.ToInt(tv.Value))
+						out = append(out, v)
+					}
+					return out
+				}
+			}
+		}
+	}
+	return nil
 }
